@@ -14,7 +14,12 @@ correspond : allocation patterns with a bounded live set on real engines (harnes
              target died report #false.  Patterns: acyclic garbage, rings of length 1-8 through boxes / mutable
              vectors / mutable struct fields, self-capturing closures, garbage held only by dead continuations,
              by shadowed globals (crossing the slot-recycling threshold), by finished threads; two allocating
-             threads.  Modes: the collector's own policy, and a forced full collection at every 13th allocation.
+             threads; garbage that passed through a host-root mechanism ACROSS a full collection (message in transit
+             in a channel, result of a finished unjoined thread, closure wrapped by #%closure->boxed-function),
+             arguments of failing host-side callbacks recovered by with-handler, data captured by the closure of a
+             dead thread: slots back at the baseline, wills registered on that garbage all become ready, and the
+             resident set size (/proc/self/statm) after the warm-up rounds vs. at the end stays within a margin that
+             is a fraction of what a never-released root would cost.  Modes: the collector's own policy, and a forced full collection at every 13th allocation.
 """
 import os
 import random
@@ -28,7 +33,7 @@ META = {
     "ready": True,
     "category": "proof",
     "technique": "Lean 4 theorems on the C04 free-list/collector model (free-slot accounting invariant over all operation lists, sweep completeness by graph reachability, reuse before growth, weak box clearing) + heap statistics of the real engine sampled over long allocation patterns with a bounded live set",
-    "level_text": "Proved for all heaps, roots and operation lists (SteelVerif/C19/Props.lean): after every operation alloc_count equals the number of slots whose mark bit is clear, the cursor slot is free and addresses are distinct (count_inv; also for marking several root sets one after the other with summed statistics — and a `decide`d witness that dropping the first counter, the code before b0ffd538, breaks it); after a full collection every slot still marked allocated is reachable from the roots along the fields the marker follows, so garbage of any shape — chains, cycles of any length, self-capturing closures — is free (sweep_complete), and the marker follows no field outside the specification table; allocate always hands out an existing free slot and extends the list only when it took the last one (reuse_before_grow); a weak box whose private slot is unreachable reports cleared after a collection; heap_bounded: for every operation list (allocations under the 95 % policy, explicit collections anywhere) in which each full collection finds at most M >= EXTEND_CHUNK live slots, the number of slots never exceeds 2*M*2^RESET_LIMIT (= max(L, 25600) * 2^10 for the constants of the code) and grow_count stays in 1..RESET_LIMIT+1, independent of the number of operations (growth-then-compaction policy; the policy leaves two free slots so FreeList::allocate itself never extends). Resident memory of the process (Arc allocations, Vec capacity, the allocator) is outside the model; the sampled runs check the slot counts against the bound.",
+    "level_text": "Proved for all heaps, roots and operation lists (SteelVerif/C19/Props.lean): after every operation alloc_count equals the number of slots whose mark bit is clear, the cursor slot is free and addresses are distinct (count_inv; also for marking several root sets one after the other with summed statistics — and a `decide`d witness that dropping the first counter, the code before b0ffd538, breaks it); after a full collection every slot still marked allocated is reachable from the roots along the fields the marker follows, so garbage of any shape — chains, cycles of any length, self-capturing closures — is free (sweep_complete), and the marker follows no field outside the specification table; allocate always hands out an existing free slot and extends the list only when it took the last one (reuse_before_grow); a weak box whose private slot is unreachable reports cleared after a collection; root_token_release: in the host-root table (keys (generation, offset), generation bumped by every full collection) a value whose token was dropped — after any number of other roots, drops and collections — is a host root of no later collection, and until then it is one (root_token_live), with a `decide`d witness that releasing under the CURRENT generation leaks once a collection separates rooting and release; heap_bounded: for every operation list (allocations under the 95 % policy, explicit collections anywhere) in which each full collection finds at most M >= EXTEND_CHUNK live slots, the number of slots never exceeds 2*M*2^RESET_LIMIT (= max(L, 25600) * 2^10 for the constants of the code) and grow_count stays in 1..RESET_LIMIT+1, independent of the number of operations (growth-then-compaction policy; the policy leaves two free slots so FreeList::allocate itself never extends). Resident memory of the process (Arc allocations, Vec capacity, the allocator, reference-counted data whose release depends on steel-rc — property C05) is outside the model: the 'bounded memory' clause is checked on runs only (slot counts against the bound, RSS plateau over rounds with a constant live set).",
     "level_note": "Trusted: Lean kernel, the C04 translator and tables, harness/generator/comparison, the #%verif-heap-stats hook. Deferred cross-thread reference drops (steel-rc merge queues, property C05) and will executors are not modelled.",
 }
 
@@ -79,6 +84,51 @@ def shadow_program(n, every):
     body.append("(#%verif-heap-stats)")
     return "\n;;;---\n".join(body)
 
+
+# Garbage that passes through a host-root mechanism (RootedSteelVal / GLOBAL_ROOTS, or the operand stack of a
+# host-driven callback thread) ACROSS a full collection, and garbage captured by the closure of a dead thread.
+# `fullgc` = one forced full collection without the growth step (it bumps the root table's generation like any
+# other).  Each program returns (name base-live final-live rss-after-warm-up-kB rss-at-end-kB).
+HOSTPRE = PRE + """(define (fullgc) (#%verif-gc-every 1) (box 0) (#%verif-gc-every 0) 0)
+(define (rss-kb) (let* ((p (open-input-file "/proc/self/statm")) (s (read-port-to-string p)) (pages (string->number (cadr (split-whitespace s))))) (close-input-port p) (* pages 4)))
+(define (selfbox) (let ((b (box 0))) (set-box! b (lambda () b)) b))
+(define (junk tag size) (list (selfbox) (mutable-vector (selfbox) tag) (make-bytes size tag)))
+(define (repeat n thunk) (if (> n 0) (begin (thunk) (repeat (- n 1) thunk)) 0))
+(define (measure name warm n round)
+  (fullgc) (let ((base (live))) (repeat warm round) (let ((r0 (rss-kb))) (repeat n round) (let ((r1 (rss-kb))) (fullgc) (list name base (live) r0 r1)))))
+"""
+
+# name -> (definitions, warm-up rounds, rounds, what leaks per round if the root is never released (kB), margin kB)
+HOSTPATTERNS = {
+    "channel-in-transit": ("""(define ch (channels/new))
+(define tx (channels-sender ch))
+(define rx (channels-receiver ch))
+(define (round) (repeat 10 (lambda () (channel/send tx (junk 1 200000)))) (fullgc) (repeat 10 (lambda () (channel/recv rx))) 0)""", 5, 40, 2000, 24000),
+    "unjoined-thread-result": ("""(define done (channels/new))
+(define (round) (let ((t (spawn-native-thread (lambda () (let ((r (junk 2 1000000))) (channel/send (channels-sender done) 'd) r))))) (channel/recv (channels-receiver done)) (time/sleep-ms 3) (fullgc) (thread-join! t) 0))""", 5, 60, 1000, 20000),
+    "boxed-function": ("""(define (round) (let ((f (#%closure->boxed-function (let ((j (junk 3 1000000))) (lambda (x) (list j x)))))) (fullgc) (f 1) 0))""", 5, 60, 1000, 20000),
+    "failing-host-callback": ("""(define callback (#%closure->boxed-function (lambda (tag payload) (if (symbol? tag) (error "callback failed" tag) (list tag payload)))))
+(define (round) (with-handler (lambda (e) 'recovered) (callback 'probe (junk 4 300000))))""", 20, 250, 300, 25000),
+    "dead-thread-captured-data": ("""(struct blob (a b))
+(define (round) (let* ((payload (blob (make-bytes 1000000 5) (list 1 2 3))) (t (spawn-native-thread (lambda () (bytes-length (blob-a payload)))))) (thread-join! t) (box 1) 0))""", 20, 200, 1000, 64000),
+}
+
+WILLS = HOSTPRE + """(define ch (channels/new))
+(define tx (channels-sender ch))
+(define rx (channels-receiver ch))
+(define ex (make-will-executor))
+(define fired (box 0))
+(define (watch b) (will-register ex b (lambda (x) (set-box! fired (+ 1 (unbox fired))))) b)
+(define callback (#%closure->boxed-function (lambda (tag payload) (if (symbol? tag) (error "callback failed" tag) (list tag payload)))))
+(repeat 40 (lambda () (channel/send tx (watch (selfbox)))))
+(fullgc)
+(repeat 40 (lambda () (channel/recv rx)))
+(repeat 40 (lambda () (with-handler (lambda (e) 'recovered) (callback 'probe (watch (selfbox))))))
+(fullgc)
+(spawn-native-thread (lambda () (let loop () (will-execute ex) (loop))))
+(define (wait n) (cond ((= (unbox fired) 80) #t) ((= n 0) #f) (else (time/sleep-ms 50) (wait (- n 1)))))
+(wait 100)
+(unbox fired)"""
 
 WEAK = PRE + """0
 ;;;---
@@ -174,6 +224,10 @@ def run(ctx):
         jobs.append((name, 13, pattern_program(name, min(t, 100000 if ctx.quick() else 1000000), nsamples, 13), min(t, 100000 if ctx.quick() else 1000000)))
     jobs.append(("shadowed-globals", None, shadow_program(560 if ctx.quick() else 3000, 40), 560 * 4))
     jobs.append(("weak-boxes", None, WEAK, 2))
+    scale = 1 if ctx.quick() else 5
+    for hname, (defs, warm, rounds, _, _) in HOSTPATTERNS.items():
+        jobs.append(("host:" + hname, None, HOSTPRE + defs + "\n0\n;;;---\n(measure '%s %d %d round)" % (hname, warm, rounds * scale), rounds * scale * 3))
+    jobs.append(("wills-on-garbage", None, WILLS, 80))
     jobs.append(("two-threads", None, MT.replace("@N@", str(30000 if ctx.quick() else 1000000)), 60000))
     # regression witnesses of fixed defects and witnesses of open findings
     cdir = os.path.join(C.VERIF, "corpus", "C19")
@@ -203,6 +257,33 @@ def run(ctx):
             stats["patterns"][label] = got
             if got != "(((1 2) 5) #false #false gone)":
                 ctx.violation("C19-weak-boxes.scm", ";; weak boxes whose targets died must report #false after a collection: got %s\n%s\n" % (got, text))
+            continue
+        if name == "wills-on-garbage":
+            got = lines[-1][3:].split("|")[-1]
+            stats["patterns"][label] = got
+            stats["leak_checks"] += 1
+            if got != "80":
+                ctx.violation("C19-wills-on-garbage.scm", ";; 40 self-referencing boxes went through a channel across a full collection and 40 were "
+                              "arguments of failing host callbacks; all are unreachable: after a full collection the wills registered on them must all "
+                              "become ready (80), observed %s\n%s\n" % (got, text))
+            continue
+        if name.startswith("host:"):
+            r = parse_list(lines[-1][3:].split("|")[-1])
+            base, end, r0, r1 = r[1], r[2], r[3], r[4]
+            _, warm, rounds, per_round, margin = HOSTPATTERNS[name[5:]]
+            margin *= (1 if ctx.quick() else 5)
+            stats["patterns"][label] = {"baseline_live": base, "final_live": end, "rss_after_warmup_kb": r0, "rss_at_end_kb": r1,
+                                        "rounds": rounds * (1 if ctx.quick() else 5), "rss_margin_kb": margin}
+            stats["leak_checks"] += 2
+            bad = []
+            if end[0] > base[0] or end[1] > base[1]:
+                bad.append("after the final full collection %s slots are allocated (values, vectors), before the pattern %s: slots that nothing "
+                           "references are still treated as reachable" % (end, base))
+            if r1 - r0 > margin:
+                bad.append("resident memory grew by %d kB over %d rounds with a constant live set (allowed %d kB; a root that is never "
+                           "released would cost about %d kB)" % (r1 - r0, rounds, margin, per_round * rounds))
+            if bad:
+                ctx.violation("C19-%s.scm" % label.replace(":", "-"), ";; pattern %s\n;; %s\n%s\n" % (label, "\n;; ".join(bad), text))
             continue
         if name == "two-threads":
             s = parse_list(lines[-1][3:].split("|")[-1])
